@@ -543,6 +543,10 @@ impl<E: Effect, R: CommandReceiver<E>, S: EventSender<E>> Worker<E, R, S> {
     ) -> Result<(), EnvironmentError> {
         let mut has_any_result = false;
 
+        // The state of every process in the answer is known now, completed or not.
+        let reported: Vec<ProcessId> = results.keys().copied().collect();
+        self.executor.notify_await_report(awaiter, &reported);
+
         // Process each result and update awaiter
         for (awaited, result_opt) in results {
             if let Some(result) = result_opt {
